@@ -247,6 +247,7 @@ func (c *Ctx) gaugeWriters() {
 	const field = "loadbalancer.Backend.ActiveConnections"
 	fr := p.Freshness()
 	var bad []string
+	var pubSites []ssa.CallInstruction
 	nWrites, nCalls := 0, 0
 	for _, fn := range p.Funcs {
 		if !p.InScope(fn) {
@@ -290,6 +291,9 @@ func (c *Ctx) gaugeWriters() {
 				if d := p.Desc(args[1], nil); !strings.HasPrefix(d, "call:(*github.com/0xReLogic/Helios/internal/loadbalancer.Backend).GetActiveConnections(") {
 					bad = append(bad, p.InstrPos(ci)+": "+p.FuncKey(fn)+" publishes a gauge value that is not the backend's own atomic reading: "+d)
 				}
+				// reading the counter and publishing the reading form one step per backend: two requests
+				// finishing together must not publish in the opposite order of their readings
+				pubSites = append(pubSites, ci)
 			}
 		}
 	}
@@ -299,6 +303,28 @@ func (c *Ctx) gaugeWriters() {
 		c.Fail("gauge-writers", field, "-", bad[0], bad...)
 	}
 	c.Floor("gauge-writers", nWrites, 2, "gauge updates")
+	li := p.Locks()
+	for i, ci := range pubSites {
+		fl := li.Fns[ci.Parent()]
+		held := ""
+		if fl != nil {
+			for _, h := range fl.Must[ci] {
+				if strings.HasPrefix(h.Class, "loadbalancer.Backend.") {
+					held = h.Class
+				}
+			}
+		}
+		okRead := held != ""
+		if okRead {
+			// the reading that is published was taken under the same lock
+			if rd, isCall := CallArgs(ci)[1].(*ssa.Call); isCall {
+				okRead = fl.Must[rd].HoldsClass(held) != 0
+			}
+		}
+		c.Check(okRead, "gauge-publication-atomic", fmt.Sprintf("%s/publish#%d", p.FuncKey(ci.Parent()), i+1), p.InstrPos(ci),
+			"the gauge is read and published under "+held,
+			"the in-flight gauge is read and then published as two separate steps with no per-backend lock around them: of two requests finishing together the one that read first (the larger value) can publish last, and the published gauge stays above zero while the backend is idle")
+	}
 }
 
 // statusCaptured: the status used for accounting and passive health checks is the last one the
